@@ -62,6 +62,9 @@ def run(ctx, rep):
     LR.check_remap_method(fx, rep, "C10.reader")
     LR.check_section_slices(fx, rep, "C10.reader")
     R1.check_find_range(fx, rep, "C10.reader")
+    # a parsed file also answers `deobfuscate_signature` (class names looked up in it, one per type, array depth per occurrence)
+    import rules_C16 as R16
+    R16.check_both_impls(fx, rep, "C10.sig")
     # string encoding dependencies
     pins = CR.lock_pins()
     for k, (ver_, sum_) in CR.PINNED.items():
